@@ -107,13 +107,35 @@ def oracle(line, out):
     return None
 
 
+def official_words():
+    """the frozen official list, read from lean/BtcHd/Official/Wordlist.lean (the copy the theorems are about)"""
+    import os, re
+    path = os.path.join(os.path.dirname(os.path.abspath(__file__)), "..", "..", "lean", "BtcHd", "Official", "Wordlist.lean")
+    src = open(path, encoding="utf-8").read()
+    ws = []
+    for m in re.finditer(r"def textChunk\d+ : List String := \[(.*?)\]", src, re.S):
+        ws += re.findall(r'"([a-z]+)"', m.group(1))
+    return ws
+
+
 def extra_checks(rng, tier, g, info):
     wl = words()
     digest = hashlib.sha256(("\n".join(wl) + "\n").encode()).hexdigest()
     info["wordlist_sha256"] = digest
+    off = official_words()
+    info["official_copy_sha256"] = hashlib.sha256(("\n".join(off) + "\n").encode()).hexdigest()
+    if info["official_copy_sha256"] != OFFICIAL_SHA:
+        yield "mn_from_ent -", "frozen official list in lean/BtcHd/Official/Wordlist.lean does not have the official digest"
+        return
     if digest != OFFICIAL_SHA or len(wl) != 2048:
-        # locate the first difference through the frozen Lean copy's numbers is not possible here; report digest
-        yield "mn_from_ent " + sx(bytes(16).hex()), "embedded word list is not the official BIP39 English list (sha256 %s)" % digest
+        # build a concrete entropy whose FIRST word index is the first position where the lists differ
+        bad = next((i for i in range(2048) if i >= len(wl) or wl[i] != off[i]), 0)
+        ent = (bad << (128 - 11)).to_bytes(16, "big")
+        line = "mn_from_ent " + sx(ent.hex())
+        got = impl.run(line)
+        first = impl.unstr(got[3:]).split(" ")[0] if got.startswith("ok ") else got
+        yield line, ("embedded word list differs from the official BIP39 English list at index %d: the sentence for "
+                     "entropy %s starts with %r, official word is %r" % (bad, ent.hex(), first, off[bad]))
 
 
 known_match = common.no_known
